@@ -37,6 +37,9 @@ Proof.
   rewrite Nat2Z.id. clear H. induction pre as [|x p IH]; [reflexivity | exact IH].
 Qed.
 
+Lemma byte_at_app_len_eq s pre c r : s = pre ++ c :: r -> byte_at s (len pre) = Some c.
+Proof. intros ->. apply byte_at_app_len. Qed.
+
 Lemma byte_at_app_len1 pre c d r : byte_at (pre ++ c :: d :: r) (len pre + 1) = Some d.
 Proof.
   replace (pre ++ c :: d :: r) with ((pre ++ [c]) ++ d :: r) by (rewrite <- app_assoc; reflexivity).
@@ -149,6 +152,27 @@ Lemma for_range_S {S R : Type} n i (body : Z -> S -> option (loop_res S R)) st :
   for_range (Datatypes.S n) i body st
   = match body i st with Some (Next st') => for_range n (i + 1)%Z body st' | other => other end.
 Proof. reflexivity. Qed.
+
+Lemma for_range_flat_map {R : Type} (f : N -> list N) (s : list N)
+      (body : Z -> list N -> option (loop_res (list N) R)) :
+  (forall pre c r sb, s = pre ++ c :: r -> body (len pre) sb = Some (Next (sb ++ f c))) ->
+  forall r pre sb, s = pre ++ r ->
+  for_range (length r) (len pre) body sb = Some (Next (sb ++ flat_map f r)).
+Proof.
+  intros Hb. induction r as [|c r IH]; intros pre sb Hs.
+  - cbn [length for_range flat_map]. rewrite app_nil_r. reflexivity.
+  - cbn [length]. rewrite for_range_S, (Hb pre c r sb Hs).
+    replace (len pre + 1)%Z with (len (pre ++ [c])) by (rewrite len_app; reflexivity).
+    rewrite (IH (pre ++ [c]) (sb ++ f c)) by (rewrite <- app_assoc; exact Hs).
+    cbn [flat_map]. rewrite <- app_assoc. reflexivity.
+Qed.
+
+(** a loop that appends [f (s[i])] to an accumulator for every index is [flat_map f] *)
+Lemma for_index_flat_map {R : Type} (f : N -> list N) (s : list N)
+      (body : Z -> list N -> option (loop_res (list N) R)) :
+  (forall pre c r sb, s = pre ++ c :: r -> body (len pre) sb = Some (Next (sb ++ f c))) ->
+  forall sb, for_index s body sb = Some (Next (sb ++ flat_map f s)).
+Proof. intros Hb sb. exact (for_range_flat_map f s body Hb s [] sb eq_refl). Qed.
 
 (** * symbolic evaluation of generated definitions
     [g2c_cbn] computes the runtime functions on partially known strings ([c1 :: c2 :: tail]);
